@@ -459,6 +459,9 @@ class RSocketBase(RSocket, RSocketInternal):
 
         await self._stop_tasks()
 
+        # requests issued after the connection was already lost have nobody left to fail them
+        self.stop_all_streams()
+
         await self._close_transport()
 
     async def _stop_tasks(self):
